@@ -173,17 +173,25 @@ pub struct Ep {
 }
 
 impl Ep {
-    pub async fn build(a_is_client: bool) -> Result<Ep, String> {
+    /// `post_hvr`: the client has received a HelloVerifyRequest (from a cookie-exchanging server, which rustrtc's own
+    /// server is not) and answered it; only the pre-handshake phase can be explored in that state.
+    pub async fn build(a_is_client: bool, post_hvr: bool) -> Result<Ep, String> {
         let reference = reference().await?;
         let pair = Pair::new(a_is_client).await?;
-        Ok(Ep { pair, phase: "pre", reference, closed: false })
+        let mut ep = Ep { pair, phase: "pre", reference, closed: false };
+        if a_is_client && post_hvr {
+            let hvr = ep.genuine("dg.hvr").ok_or("no HelloVerifyRequest")?;
+            ep.pair.deliver_to_a(&hvr).await;
+            ep.pair.poll_both().await;
+        }
+        Ok(ep)
     }
 
     pub async fn progress(&mut self, to: &str, depth: u64) -> Result<(), String> {
         match to {
             "mid" => {
                 // stop the handshake after 1 + depth exchanges
-                for _ in 0..(1 + depth) {
+                for _ in 0..(1 + depth % 3) {
                     if !self.pair.step().await {
                         break;
                     }
